@@ -6,7 +6,7 @@ import Enc.Lemmas.ProtoLiberalMapFindings
 /-!
 # liberal decoding (C12, second half) on the universe with map fields `tyOKM`: index
 
-`Model.Proto.unmarshal` (the Go decoder as coded) against `Spec.Protobuf.decode` (the liberal reference decoder) on
+`Model.Proto.unmarshalU` (the Go decoder as coded) against `Spec.Protobuf.decode` (the liberal reference decoder) on
 EVERY byte string, for message types with `map[K]V` fields (`ProtoMapDefs.tyOKM`).
 
 | file                        | content                                                                                 |
